@@ -439,13 +439,19 @@ pub const CLASSES: &[&str] = &[
     "shadow-decl",
 ];
 
-/// known-finding key by mutation sub-class (None: must be clean)
+/// Known-finding key by mutation sub-class (None: must be clean).
+/// F2 = "a command rejected by the typechecker / shadowing check leaves declaration state behind
+/// (sort / constructor / function / global names) so that a later command observes it". Since
+/// repository commit 473a35e a single function declaration is atomic, so bad merge expressions,
+/// constructors with a non-eq output and duplicate declarations are NOT covered any more; what
+/// remains is (a) compound declarations whose later part fails and (b) declarations that
+/// typecheck and are then rejected by check_shadowing.
+/// `h_session::compare_sessions` additionally demands that the observed difference IS of that
+/// kind (see `decl_visibility_only`), otherwise the violation gets a fresh key.
 pub fn known_key(sub: &str) -> Option<&'static str> {
     match sub {
         "bad-merge/self-reference" => Some("F9-self-referential-merge"),
-        "bad-merge/unbound-function" | "bad-merge/unbound-var" | "bad-merge/type" | "bad-merge/unknown-prim"
-        | "undefined-sort/datatype-variant" | "undefined-sort/relation" | "ctor-non-eq-output/decl"
-        | "dup-decl/function-other-sig" | "dup-decl/constructor-other-sig" | "shadow-decl/sort-vs-ruleset"
+        "undefined-sort/datatype-variant" | "undefined-sort/relation" | "shadow-decl/sort-vs-ruleset"
         | "shadow-decl/function-vs-ruleset" | "shadow-decl/constructor-vs-ruleset" | "shadow-decl/let-twice"
         | "shadow-decl/datatype-vs-ruleset" => Some("F2-typecheck-not-atomic"),
         _ => None,
